@@ -140,9 +140,10 @@ F(i) == CASE i.kind = "net"   -> NetF(i.tab)
 (* ---- enumerated input space: a distinct value in every slot ----------- *)
 \* the universes (a cfg file cannot hold a sequence; the position is the
 \* device's index, from which its distinct counter values derive)
-NicNames   == << "lo", "eth0", "eth0:1", "wlp3s0", "br-5f2a" >>
-DiskNames  == << "sda", "sda1", "nvme0n1", "nvme0n1p1", "loop0", "cciss/c0d0", "cciss/c0d0p1" >>
-Partitions == {"sda1", "nvme0n1p1", "cciss/c0d0p1"}      \* no /sys/block entry of their own
+NicNames   == << "lo", "eth0", "eth0:1", "wlp3s0", "br-5f2a", "bond0.100" >>
+DiskNames  == << "sda", "sda1", "nvme0n1", "nvme0n1p1", "loop0", "cciss/c0d0", "cciss/c0d0p1",
+                 "dm-0", "mmcblk0p1" >>
+Partitions == {"sda1", "nvme0n1p1", "cciss/c0d0p1", "mmcblk0p1"}   \* no /sys/block entry of their own
 ASSUME Nics \subseteq {NicNames[i] : i \in 1..Len(NicNames)}
 ASSUME Disks \subseteq {DiskNames[i] : i \in 1..Len(DiskNames)}
 
